@@ -30,30 +30,37 @@ import (
 
 func main() { lib.Main("C06", run) }
 
-// widenDetected: does splitPeriod of the tree this harness was built from widen the period range to the
-// first and the last listed segment (repair "period range covers listed segments")? Read from
-// livempd.go: the body of splitPeriod calls firstAndLastSegmentStart. The model is evaluated with
-// this flag; a repair of another shape shows up as a correspondence mismatch.
+// widenDetected: does the tree under test widen the period range to the first and the last listed segment
+// (repair 33ba430 and its bounds)? Decided by a BEHAVIOURAL probe, not by reading the source: the witness of
+// C06_early_segment_before_fix is requested from the real LiveMPD - time-shift buffer of 1 s, 6 s segments,
+// periods_30, 1 s after the Period start at 120 s. A tree with the repair answers with P0 (holding the segment
+// [114 s,120 s)) and P1; a tree without it with P1 only. The model is evaluated with the variant the code shows;
+// a tree that lacks the repair is then still reported by the oracle (partition:before-first-period / partition:missing).
 var widenDetected bool
 
-func detectWiden() (bool, string) {
-	data, err := os.ReadFile(filepath.Join(app.VerifC16SourceDir(), "livempd.go"))
-	if err != nil {
-		return false, "source not readable: " + err.Error()
+func probeWiden(ls *lib.Livesim) (bool, string) {
+	const url = "/livesim2/tsbd_1/segtimeline_1/periods_30/testpic_6s/Manifest.mpd?nowMS=121000"
+	r := ls.GetRaw(url)
+	if r.Panic != "" || r.Status != 200 {
+		return false, fmt.Sprintf("probe %s answered %d %s: model evaluated without the widening", url, r.Status, r.Panic)
 	}
-	src := string(data)
-	i := strings.Index(src, "\nfunc splitPeriod(")
-	if i < 0 {
-		return false, "splitPeriod not found"
+	mm, err := m.MPDFromBytes(r.Body)
+	if err != nil || len(mm.Periods) == 0 {
+		return false, "probe " + url + " not parsable: model evaluated without the widening"
 	}
-	body := src[i+1:]
-	if j := strings.Index(body, "\nfunc "); j >= 0 {
-		body = body[:j]
+	listed := func(p *m.Period) int {
+		n := 0
+		for _, as := range p.AdaptationSets {
+			if as.SegmentTemplate != nil && as.SegmentTemplate.SegmentTimeline != nil {
+				n += len(as.SegmentTemplate.SegmentTimeline.S)
+			}
+		}
+		return n
 	}
-	if strings.Contains(body, "firstAndLastSegmentStart(") {
-		return true, "splitPeriod calls firstAndLastSegmentStart: period range widened to the listed segments"
+	if len(mm.Periods) >= 2 && mm.Periods[0].Id == "P0" && listed(mm.Periods[0]) > 0 {
+		return true, "probe " + url + ": P0 lists the segment that starts before the window - the period range is widened to the listed segments (model variant widen = Some (ato, loop))"
 	}
-	return false, "splitPeriod takes the period range from the window start and now only"
+	return false, fmt.Sprintf("probe %s: %d period(s), first %s with %d <S> - the period range is [period of the window start, period of now] (model variant widen = None)", url, len(mm.Periods), mm.Periods[0].Id, listed(mm.Periods[0]))
 }
 
 const contScheme = "urn:mpeg:dash:period-continuity:2015"
@@ -260,37 +267,26 @@ func endMS(in c06in) int64 {
 	return in.NowMS
 }
 
-// numGuardDetected: does the $Number$ branch of splitPeriod refuse a period that is no whole number of
-// segments of the adaptation set at hand (repair "guard per adaptation set")? Read from livempd.go: the
-// `case segmentNumber:` block of splitPeriod returns the typed error errPeriodDuration.
+// numGuardDetected: does the $Number$ branch of splitPeriod refuse a period that is no whole number of segments
+// of the adaptation set at hand (repair 277eaa2)? Decided by a BEHAVIOURAL probe: splitPeriod (hook) on the
+// witness of the finding - an adaptation set with its own segment duration (3 s at timescale 1000) next to an
+// asset-wide segment duration of 1 s, periods_900 (4 s). A tree with the repair returns the typed error "not a
+// multiple of segment duration", a tree without it splits the period.
 var numGuardDetected bool
 
-func detectNumGuard() (bool, string) {
-	data, err := os.ReadFile(filepath.Join(app.VerifC16SourceDir(), "livempd.go"))
-	if err != nil {
-		return false, "source not readable: " + err.Error()
+func probeNumGuard() (bool, string) {
+	ts, dur, snr := uint32(1000), uint32(3000), uint32(0)
+	pph := 900
+	si := splitIn{PPH: &pph, SegDurMS: 1000, Mode: "number", StartTimeMS: 14000, NowMS: 24001,
+		AS: []asSpec{{ContentType: "text", TS: &ts, Dur: &dur, StartNr: &snr}}}
+	st, _ := runSplit(si)
+	switch st {
+	case 400:
+		return true, "probe splitPeriod(periods_900, template 3000/1000 s, asset segment 1 s): refused with the typed error - guard per adaptation set (model variant ng = true)"
+	case 200:
+		return false, "probe splitPeriod(periods_900, template 3000/1000 s, asset segment 1 s): accepted - only the asset-wide guard (model variant ng = false)"
 	}
-	src := string(data)
-	i := strings.Index(src, "\nfunc splitPeriod(")
-	if i < 0 {
-		return false, "splitPeriod not found"
-	}
-	body := src[i+1:]
-	if j := strings.Index(body, "\nfunc "); j >= 0 {
-		body = body[:j]
-	}
-	k := strings.Index(body, "case segmentNumber:")
-	if k < 0 {
-		return false, "no $Number$ branch in splitPeriod"
-	}
-	blk := body[k+len("case segmentNumber:"):]
-	if j := strings.Index(blk, "\n\t\t\tcase "); j >= 0 {
-		blk = blk[:j]
-	}
-	if strings.Contains(blk, "errPeriodDuration{") {
-		return true, "the $Number$ branch of splitPeriod returns errPeriodDuration: guard per adaptation set"
-	}
-	return false, "the $Number$ branch of splitPeriod has no guard of its own"
+	return false, fmt.Sprintf("probe splitPeriod(periods_900, template 3000/1000 s) ended with status %d: model evaluated without the guard per adaptation set", st)
 }
 
 type xseg struct {
@@ -877,10 +873,10 @@ func run(c *lib.Ctx) error {
 		byPath[a.Path] = a
 	}
 	var how string
-	widenDetected, how = detectWiden()
-	c.Res.Notes = append(c.Res.Notes, "source read: "+how)
-	numGuardDetected, how = detectNumGuard()
-	c.Res.Notes = append(c.Res.Notes, "source read: "+how)
+	widenDetected, how = probeWiden(ls)
+	c.Res.Notes = append(c.Res.Notes, "model variant: "+how)
+	numGuardDetected, how = probeNumGuard()
+	c.Res.Notes = append(c.Res.Notes, "model variant: "+how)
 	rng := rand.New(rand.NewSource(c.Seed))
 	lr := &liveRun{c: c, ls: ls, stopSig: map[string]string{}, stable: map[string]int64{}, distinct: map[string]bool{}, rng: rng}
 
